@@ -1317,3 +1317,206 @@ def _run_made(cx, P, made, suffix=""):
     if after is not None:
         after()
     return True
+
+
+# ------------------------------------------------------------------------------------------------------------------
+# named parameters (register_named_params / set_params with string keys): every cached query after an update
+# ------------------------------------------------------------------------------------------------------------------
+
+def _np_rot(axis, t):
+    c, s = np.cos(t / 2), np.sin(t / 2)
+    if axis == "rx":
+        return np.array([[c, -1j * s], [-1j * s, c]], dtype=complex)
+    if axis == "ry":
+        return np.array([[c, -s], [s, c]], dtype=complex)
+    return np.diag([np.exp(-0.5j * t), np.exp(0.5j * t)])
+
+
+def _np_apply(psi, U, qubits, n):
+    k = len(qubits)
+    psi = psi.reshape((2,) * n)
+    U = np.asarray(U, dtype=complex).reshape((2,) * (2 * k))
+    psi = np.tensordot(U, psi, axes=(list(range(k, 2 * k)), list(qubits)))
+    psi = np.moveaxis(psi, list(range(k)), list(qubits))
+    return psi.reshape(-1)
+
+
+_NP_H = np.array([[1, 1], [1, -1]], dtype=complex) / np.sqrt(2)
+_NP_CX = np.array([[1, 0, 0, 0], [0, 1, 0, 0], [0, 0, 0, 1], [0, 0, 1, 0]], dtype=complex)
+# expression text -> python function of the named values
+_NP_EXPRS = [("{a}", lambda v, a, b: v[a]), ("{a} / 2", lambda v, a, b: v[a] / 2), ("2 * {a}", lambda v, a, b: 2 * v[a]),
+             ("{a} + {b}", lambda v, a, b: v[a] + v[b]), ("-{a}", lambda v, a, b: -v[a]),
+             ("{a} - {b} / 2", lambda v, a, b: v[a] - v[b] / 2)]
+
+
+@driver("C07", "named-parameters", chunks=4, timeout=110,
+        bound="Circuit (gate_contract default / False / split-gate / swap-split-gate) on 2..4 qubits, 4..9 gates (rx, ry, rz parametrized, h, cx), 1..3 registered named "
+              "parameters driving 1..4 gates through 6 expression shapes, the other parametrized gates set by index; 3..5 "
+              "set_params updates (named only, index only, mixed, a single name of several, an empty update), each followed by "
+              "cached queries (to_dense, amplitude, local_expectation, partial_trace, compute_marginal, sample, get_params) "
+              "against a numpy state-vector reference; queries are also made BEFORE the update so that caches are warm")
+def named_parameters(cx):
+    import quimb.tensor as qtn
+
+    rng = cx.rng
+    nprog = 24 if cx.quick else 120
+    for prog in range(nprog):
+        n = int(rng.integers(2, 5))
+        # parametrized gates need lazily kept gate tensors: Circuit with a non-contracting gate_contract
+        # (contract=True + parametrized gates is the recorded finding C07-j)
+        kind = "Circuit"
+        gate_contract = [None, False, "split-gate", "swap-split-gate"][int(rng.integers(0, 4))]
+        ng = int(rng.integers(4, 10))
+        gl = []  # (name, qubits, angle or None)
+        for _ in range(ng):
+            g = str(rng.choice(["rx", "ry", "rz", "rx", "ry", "h", "cx"]))
+            if g == "cx":
+                a, b = (int(x) for x in rng.choice(n, size=2, replace=False))
+                gl.append(["cx", (a, b), None])
+            elif g == "h":
+                gl.append(["h", (int(rng.integers(n)),), None])
+            else:
+                gl.append([g, (int(rng.integers(n)),), float(rng.uniform(-3, 3))])
+        par = [k for k, g in enumerate(gl) if g[2] is not None]
+        if not par:
+            gl.append(["rx", (0,), 0.3])
+            par = [len(gl) - 1]
+        names = ["theta", "phi", "lam"][: int(rng.integers(1, 4))]
+        nman = int(rng.integers(1, min(4, len(par)) + 1))
+        managed = sorted(int(x) for x in rng.choice(par, size=nman, replace=False))
+        exprs = {}
+        for k in managed:
+            e = _NP_EXPRS[int(rng.integers(len(_NP_EXPRS)))]
+            a = str(rng.choice(names))
+            b = str(rng.choice(names))
+            exprs[k] = (e[0].format(a=a, b=b), e[1], a, b)
+        values = {nm: float(rng.uniform(-3, 3)) for nm in names}
+        free = [k for k in par if k not in managed]
+        # the update schedule is drawn up-front (deterministic replay)
+        nupd = int(rng.integers(3, 6))
+        updates = []
+        for _ in range(nupd):
+            how = str(rng.choice(["named-one", "named-all", "index", "mixed", "empty"], p=[0.35, 0.2, 0.15, 0.25, 0.05]))
+            u = {}
+            if how in ("named-one", "mixed"):
+                u[str(rng.choice(names))] = float(rng.uniform(-3, 3))
+            if how == "named-all":
+                u.update({nm: float(rng.uniform(-3, 3)) for nm in names})
+            if how in ("index", "mixed") and free:
+                u[int(rng.choice(free))] = float(rng.uniform(-3, 3))
+            qsel = [int(x) for x in rng.permutation(5)[: int(rng.integers(2, 5))]]
+            updates.append((how, u, qsel, int(rng.integers(1 << 30))))
+        if not cx.mine():
+            continue
+        if cx.out_of_time():
+            cx.inconclusive.append("named-parameters: time budget exhausted")
+            return
+        state = dict(circ=None, values=dict(values), angles={k: gl[k][2] for k in par})
+
+        def ref_state(state=state, gl=gl, exprs=exprs, n=n):
+            psi = np.zeros(2 ** n, dtype=complex)
+            psi[0] = 1
+            for k, (g, qs, _) in enumerate(gl):
+                if g == "cx":
+                    psi = _np_apply(psi, _NP_CX, qs, n)
+                elif g == "h":
+                    psi = _np_apply(psi, _NP_H, qs, n)
+                else:
+                    t = exprs[k][1](state["values"], exprs[k][2], exprs[k][3]) if k in exprs else state["angles"][k]
+                    psi = _np_apply(psi, _np_rot(g, t), qs, n)
+            return psi
+
+        def queries(which, seed, state=state, n=n):
+            circ = state["circ"]
+            ref = ref_state()
+            r = np.random.default_rng(seed)
+            for q in which:
+                if q == 0:
+                    got = np.asarray(circ.to_dense()).reshape(-1)
+                    if got.shape != ref.shape or np.abs(got - ref).max() > 1e-8:
+                        return f"to_dense differs from the reference by {np.abs(got - ref).max():.3g}"
+                elif q == 1:
+                    b = "".join(str(int(x)) for x in r.integers(0, 2, size=n))
+                    d = abs(complex(circ.amplitude(b)) - ref[int(b, 2)])
+                    if d > 1e-8:
+                        return f"amplitude({b}) differs by {d:.3g}"
+                elif q == 2:
+                    w = int(r.integers(n))
+                    G = r.normal(size=(2, 2)) + 1j * r.normal(size=(2, 2))
+                    rho = _np_rdm(ref, (w,), n)
+                    d = abs(complex(circ.local_expectation(G, w)) - np.trace(G @ rho))
+                    if d > 1e-8:
+                        return f"local_expectation(G, {w}) differs by {d:.3g}"
+                elif q == 3:
+                    keep = tuple(int(x) for x in r.choice(n, size=min(2, n), replace=False))
+                    rho = np.asarray(circ.partial_trace(keep))
+                    want = _np_rdm(ref, keep, n)
+                    if rho.shape != want.shape or np.abs(rho - want).max() > 1e-8:
+                        return f"partial_trace({keep}) differs by {np.abs(rho - want).max():.3g}"
+                elif q == 4:
+                    where = tuple(sorted(int(x) for x in r.choice(n, size=min(2, n), replace=False)))
+                    p = np.asarray(circ.compute_marginal(where, dtype="complex128")).real
+                    pr = np.abs(ref.reshape((2,) * n)) ** 2
+                    want = pr.sum(axis=tuple(i for i in range(n) if i not in where))
+                    if p.shape != want.shape or np.abs(p - want).max() > 1e-8:
+                        return f"compute_marginal({where}) differs by {np.abs(p - want).max():.3g}"
+            # sampling only produces configurations of non-zero probability
+            pr = np.abs(ref) ** 2
+            for s in circ.sample(4, seed=int(seed % 1000)):
+                if pr[int(s, 2)] < 1e-12:
+                    return f"sample produced {s}, which has probability {pr[int(s, 2)]:.2g} in the reference state"
+            return None
+
+        base = dict(kind=kind, gate_contract=str(gate_contract), n=n, program=prog, gates="".join(g[0][-1] for g in gl),
+                    managed=_fmt(managed),
+                    exprs=[exprs[k][0] for k in managed])
+
+        def t_build(state=state, kind=kind, n=n, gl=gl, exprs=exprs, values=values, managed=managed, gate_contract=gate_contract):
+            circ = getattr(qtn, kind)(n, **({} if gate_contract is None else dict(gate_contract=gate_contract)))
+            for g, qs, ang in gl:
+                if g in ("cx", "h"):
+                    getattr(circ, g)(*qs)
+                else:
+                    getattr(circ, g)(ang, *qs, parametrize=True)
+            circ.register_named_params(dict(values), {k: (exprs[k][0],) for k in managed})
+            state["circ"] = circ
+            got = circ.get_params()
+            for nm, v in values.items():
+                if abs(float(np.asarray(got[nm])) - v) > 1e-12:
+                    return f"get_params()[{nm!r}] = {got[nm]} != {v}"
+            return queries([0, 1, 2, 3, 4], 11)
+
+        r = cx.check("register_named_params: every query equals the dense reference with the gate angles given by the "
+                     "named expressions", base, t_build)
+        if state["circ"] is None or r == "violation":
+            continue
+        for step, (how, u, qsel, seed) in enumerate(updates):
+            def t_upd(u=u, qsel=qsel, seed=seed, state=state):
+                circ = state["circ"]
+                e = queries(qsel, seed)  # warm the caches in the state BEFORE the update
+                if e:
+                    return "before the update: " + e
+                circ.set_params({k: (np.array([v]) if isinstance(k, int) else v) for k, v in u.items()})
+                for k, v in u.items():
+                    if isinstance(k, int):
+                        state["angles"][k] = v
+                    else:
+                        state["values"][k] = v
+                got = circ.get_params()
+                for nm, v in state["values"].items():
+                    if abs(float(np.asarray(got[nm])) - v) > 1e-12:
+                        return f"get_params()[{nm!r}] = {got[nm]} != {v} after the update"
+                return queries(qsel, seed)  # the SAME queries again
+
+            r = cx.check("set_params (named / indexed / mixed): the same cached queries repeated after the update equal the "
+                         "dense reference of the updated parameters",
+                         dict(base, step=step, update=how, keys=_fmt(sorted(map(str, u)))), t_upd)
+            if r == "violation":
+                break
+
+
+def _np_rdm(psi, keep, n):
+    t = psi.reshape((2,) * n)
+    rest = [i for i in range(n) if i not in keep]
+    t = np.transpose(t, list(keep) + rest).reshape(2 ** len(keep), -1)
+    return t @ t.conj().T
